@@ -14,7 +14,7 @@ mod verif_udp {
     static ADDR_OK: AtomicUsize = AtomicUsize::new(0);
     static EXPECT_PORT: AtomicUsize = AtomicUsize::new(0);
     static EXPECT_IP: AtomicUsize = AtomicUsize::new(0);
-    static OUTCOME: AtomicUsize = AtomicUsize::new(0); // 0 => Err(kind), n+1 => Ok(n)
+    static OUTCOME: AtomicUsize = AtomicUsize::new(0); // 0 => Err(kind), n+1 => Ok(n), usize::MAX => Ok(the whole datagram)
     static KIND: AtomicUsize = AtomicUsize::new(0);
 
     fn kind_of(i: usize) -> io::ErrorKind {
@@ -36,6 +36,7 @@ mod verif_udp {
         }
         match OUTCOME.load(Ordering::SeqCst) {
             0 => Err(io::Error::from(kind_of(KIND.load(Ordering::SeqCst)))),
+            usize::MAX => Ok(buf.len()),
             n => Ok(n - 1),
         }
     }
@@ -196,9 +197,9 @@ mod verif_udp {
     #[kani::stub(std::net::UdpSocket::send_to, send_to_stub)]
     fn c12_udp_emit_flush() {
         let s = ManuallyDrop::new(BufferedUdpMetricSink::with_capacity(any_addr(), fake_socket(), 8).ok().unwrap());
-        OUTCOME.store(5, Ordering::SeqCst); // the socket accepts: Ok(4)
+        OUTCOME.store(usize::MAX, Ordering::SeqCst); // the socket accepts whatever datagram it is given
         let r = s.emit(" b ");   // blanks at both ends: the sink does not trim or normalise the metric
-        assert!(matches!(r, Ok(3)), "[C06,C12] emit returns the metric's byte length");
+        assert!(matches!(r, Ok(3)), "[C06,C12,C13] emit returns the metric's byte length");
         assert!(CALLS.load(Ordering::SeqCst) == 0, "[C19] a metric that fits is buffered, nothing is sent");
         assert!(s.flush().is_ok(), "[C06] flush succeeds when the socket accepts");
         assert!(CALLS.load(Ordering::SeqCst) == 1 && LEN.load(Ordering::SeqCst) == 4, "[C06,C12,C13] flush sends what remains as ONE datagram: the whole metric (blanks included) followed by a single newline");
@@ -216,7 +217,7 @@ mod verif_udp {
     #[kani::stub(std::sync::Mutex::try_lock, try_lock_contended)]
     fn c12_udp_flush_contended() {
         let s = ManuallyDrop::new(BufferedUdpMetricSink::with_capacity(any_addr(), fake_socket(), 8).ok().unwrap());
-        OUTCOME.store(4, Ordering::SeqCst);
+        OUTCOME.store(usize::MAX, Ordering::SeqCst);
         let r = s.emit("ab");
         if r.is_ok() {
             let f = s.flush();
@@ -255,7 +256,7 @@ mod verif_udp {
     fn c12_udp_flush_after_interference() {
         let s: &'static BufferedUdpMetricSink = Box::leak(Box::new(BufferedUdpMetricSink::with_capacity(any_addr(), fake_socket(), 8).ok().unwrap()));
         unsafe { SHARED = Some(s); }
-        OUTCOME.store(4, Ordering::SeqCst);
+        OUTCOME.store(usize::MAX, Ordering::SeqCst);
         let r = s.emit("ab");
         assert!(matches!(r, Ok(2)), "[C12] emit succeeds (the socket accepts)");
         let f = s.flush();
